@@ -151,12 +151,14 @@ def zero_width(rng, units, family):
     return units
 
 
-def odd_names(rng, units, caps):
+def odd_names(rng, units, caps, family=""):
     """now and then a unit (or a capability) gets an unusual but legal name — the empty string, "0", a blank … — renamed
     consistently, so the structure is unchanged (seeded change C05-9: a flag carrying a unit name was tested for truth)"""
     if rng.random() < 0.1:
         u = rng.choice(sorted(units))
         new = rng.choice(ODD_NAMES)
+        if family == "loader" and any(ord(ch) > 127 for ch in new):
+            new = "a b"        # loaded processors are judged against the ASCII-folding loader model: no non-ASCII names there
         if all(d["name"].lower() != new.lower() for d in units.values()):
             units[u]["name"] = new
     if rng.random() < 0.03:
@@ -586,7 +588,7 @@ def gen_input(case, tier="quick"):
     family = FAMILIES[case % len(FAMILIES)] if isinstance(case, int) else "parts"
     for _attempt in range(60):
         units, edges, caps = gen_units(rng, family)
-        units, caps = odd_names(rng, units, list(caps))
+        units, caps = odd_names(rng, units, list(caps), family)
         units = zero_width(rng, units, family)
         edges = {(a, b) for (a, b) in edges if set(units[a]["caps"]) & set(units[b]["caps"])}
         if family != "illformed" and not py_wf(units, edges, caps):
